@@ -9,6 +9,7 @@ Fixpoint: taking the same hop again from the state it produced is a self-loop.
 """
 import itertools
 
+from mc import shared
 from mc.acc import Acc, h8
 from mc.ref import parsers
 
@@ -46,8 +47,8 @@ def hop(fmt, cs):
 
     W = {"srt": pycaption.SRTWriter, "webvtt": pycaption.WebVTTWriter, "dfxp": pycaption.DFXPWriter, "sami": pycaption.SAMIWriter, "microdvd": pycaption.MicroDVDWriter}
     R = {"srt": pycaption.SRTReader, "webvtt": pycaption.WebVTTReader, "dfxp": pycaption.DFXPReader, "sami": pycaption.SAMIReader, "microdvd": pycaption.MicroDVDReader}
-    doc = W[fmt]().write(cs)
-    return R[fmt]().read(doc), doc
+    doc = shared.obj(W[fmt]).write(cs)
+    return shared.obj(R[fmt]).read(doc), doc
 
 
 def ref_hop(fmt, model):
@@ -202,11 +203,26 @@ def double_models():
     return out
 
 
+def reuse_items():
+    ms = single_models("quick")[::29] + double_models()[::37]
+    items = []
+    for i, m in enumerate(ms):
+        fmts = FORMATS if len(m) == 1 else ["dfxp", "sami"]
+        items.append((m, [fmts[i % len(fmts)], fmts[(i // 2 + 1) % len(fmts)]]))
+    return items
+
+
+def reuse_eval(item):
+    res = replay({"model": item[0], "path": item[1], "klass": "reuse-run"})
+    return [(r["sig"], r["detail"]) for r in res], tuple(item[1])
+
+
 def shards(tier, seed):
     n = len(single_models(tier))
     parts = 32 if tier == "quick" else 96
     sh = [{"k": "single", "part": p, "nparts": parts, "tier": tier, "depth": bounds(tier)["depth"]} for p in range(parts)]
     sh += [{"k": "double", "part": p, "nparts": 4, "tier": tier} for p in range(4)]
+    sh += [{"k": "reuse"}]
     if tier == "thorough":
         sh += [{"k": "deep", "part": p, "nparts": 16} for p in range(16)]
     return sh
@@ -220,6 +236,8 @@ def run_shard(d):
             if i % d["nparts"] != d["part"]:
                 continue
             explore(acc, m, d["depth"], FORMATS, states, "one-language")
+    elif d["k"] == "reuse":
+        shared.run(acc, reuse_items(), reuse_eval, sample=lambda it: {"reuse_run_step": [it[0], it[1]]})
     elif d["k"] == "double":
         for i, m in enumerate(double_models()):
             if i % d["nparts"] != d["part"]:
@@ -249,6 +267,8 @@ def _m(model):
 
 
 def replay(case):
+    if case.get("reuse"):
+        return shared.replay(reuse_items(), reuse_eval, case["index"])
     model0 = _m(case["model"])
     path = case["path"]
     klass = case.get("klass", "one-language")
